@@ -24,7 +24,9 @@ RULE = ("14 LIVE cases per run: real children (prctl names with parentheses/blan
         "EACCES x re-read) for name/status/cpu_num; 1-8 threads with their own names, vanishing threads, dead/zombie owner; "
         "name() as a str in child interpreters started with each available file-system encoding (utf-8; ascii = LC_ALL=C with "
         "UTF-8 mode and locale coercion off) for names of bytes >= 0x80 that are well-formed UTF-8 (2/3/4-byte, range ends), "
-        "truncated, overlong, surrogates, > U+10FFFF, stray bytes; name() histories on ONE Process object (2-4 kernel states, same pid: extended from "
+        "truncated, overlong, surrogates, > U+10FFFF, stray bytes; interpreter modes: ALL record layouts (N = 39..52, short records raising IndexError, status without "
+        "ctxt lines, non-UTF-8 names, threads, /proc listing, ascii child, history, read fault) under each of python -bb, -O and "
+        "-W error, plus an 18 % sample of every other kind under -bb/-O/-W error/-X dev; name() histories on ONE Process object (2-4 kernel states, same pid: extended from "
         "cmdline, exec to a program sharing the 15-byte comm, argv[0] matching or not, blanks as separators, zombie with empty "
         "cmdline, cmdline EACCES/ESRCH/ENOENT, stat gone/denied, renamed to a short comm, PID reused; str()/repr()/as_dict()/"
         "name() touches in between); ppid_map/pids over /proc listings with present/vanished/unreadable processes and non-numeric entries; plus a malformed "
@@ -34,7 +36,8 @@ TRUSTED = ["correspondence harness props/C06.py + pv/ (fake /proc tree; os.scand
            "the real glob; psutil._common.open patched for read faults; psutil._pslinux.CLOCK_TICKS patched to the case's tick rate)",
            "kernel formats of /proc/<pid>/stat, /proc/<pid>/status (Name escaping), /proc/stat btime, new_encode_dev and glibc "
            "makedev transcribed in coq/C06/Spec.v",
-           "table translator props/_c06_tables.py (PROC_STATUSES, STATUS_ZOMBIE -> coq/Gen/C06_Tables.v)",
+           "table translator props/_c06_tables.py (PROC_STATUSES, STATUS_ZOMBIE, and the ast dump of formatting sites of the reader "
+           "functions -> coq/Gen/C06_Tables.v); the per-function lists of bytes-typed locals in coq/C06/Spec.v are hand-written",
            "live helper props/_c06_live.py and the harness-side parsers _parse_real_stat/_parse_real_status (they only cut the real "
            "text into the fields the Coq printers re-assemble; a wrong cut shows up as a byte mismatch)",
            "child interpreters props/_c06_child.py (one per file-system encoding, JSON line protocol); the fs codec transcribed in "
@@ -536,11 +539,11 @@ def gen_cases(rng, tier):
         c = _stat_case(rng, comm=b"st)ate (x", cls="stat-letter")
         c["state"] = st.hex()
         cases.append(c)
-    for _ in range(190 * n):
+    for _ in range(160 * n):
         cases.append(_stat_case(rng))
-    for _ in range(150 * n):
+    for _ in range(120 * n):
         cases.append(_status_case(rng))
-    for _ in range(90 * n):
+    for _ in range(80 * n):
         cases.append(_threads_case(rng))
     for _ in range(50 * n):
         cases.append(_ppid_map_case(rng))
@@ -569,6 +572,33 @@ def gen_cases(rng, tier):
         cases.append({"kind": "status_raw", "cls": "raw-status", "data": data.hex()})
     for _ in range(8 * n):
         cases.append(_stat_case(rng, known_high=True))
+    # interpreter modes: -bb (str(bytes) / bytes == str raise), -O (asserts vanish), -W error (a warning raises), -X dev.
+    # ALL record layouts under each of the three strict modes (old kernels without field 42, short records that raise
+    # IndexError, status without ctxt lines, non-UTF-8 names), then a sample of everything else.
+    modes = [["-bb"], ["-O"], ["-W", "error"]]
+    for fl in modes:
+        for nf in (39, 40, 41, 42, 44, 52):
+            c = _stat_case(rng, comm=rng.choice([b"old) \xff\xe9 (k", b"caf\xc3\xa9", b"plain"]), cls="mode-layout")
+            c["nfields"] = nf
+            cases.append(dict(c, pyflags=fl))
+        for cut in (0, 1, 2, 5, 12, 20, 37, 38):      # fewer fields than the parser needs -> IndexError, nothing else
+            base = _stat_case(rng, comm=b"sh) \xfe (rt")
+            data = _py_k_stat(base["pid"], bytes.fromhex(base["comm"]), _after(base)[:cut - 2] if cut >= 2 else [])
+            if cut == 0:
+                data = b""
+            cases.append({"kind": "stat_raw", "cls": "mode-short-record", "pid": base["pid"], "data": data.hex(),
+                          "clk": base["clk"], "procstat": _py_k_procstat(base).hex(), "dev": [], "pts": [], "pyflags": fl})
+        c = _status_case(rng, comm=b"Uid:\t0 \xff)", cls="mode-status")
+        cases.append(dict(c, ctx=None, pyflags=fl))
+        cases.append(dict(_status_case(rng, comm=b"\xe9\n\\", cls="mode-status"), pyflags=fl))
+        cases.append(dict(_threads_case(rng, comm=b"t) \xff (", cls="mode-threads"), pyflags=fl))
+        cases.append(dict(_ppid_map_case(rng), cls="mode-ppid_map", pyflags=fl))
+        cases.append(dict(_name_enc_case(rng, "ascii"), pyflags=fl))
+        cases.append(dict(_name_hist_case(rng), pyflags=fl))
+        cases.append(dict(_race_case(rng), pyflags=fl))
+    from pv import core as _core
+    _core.assign_pyflags(cases, rng, modes=(("-bb",), ("-bb",), ("-O",), ("-W", "error"), ("-X", "dev")), frac=0.18,
+                         only=lambda c: c["kind"] != "live")
     if tier == "thorough":
         names = [b""]
         for a in CRIT:
@@ -933,18 +963,19 @@ CHILD_ENV = {"utf-8": {"PYTHONUTF8": "1"},
              "ascii": {"LC_ALL": "C", "PYTHONCOERCECLOCALE": "0", "PYTHONUTF8": "0"}}
 
 
-def _child(enc):
+def _child(enc, flags=()):
     """A persistent interpreter whose sys.getfilesystemencoding() is `enc` (fixed at start-up, so it has to be a
     separate process); same psutil (PYTHONPATH is inherited from the worker)."""
     import subprocess
     import sys
-    ch = _children.get(enc)
+    key = (enc,) + tuple(flags)
+    ch = _children.get(key)
     if ch is not None and ch.poll() is None:
         return ch
     e = {k: v for k, v in os.environ.items() if not (k.startswith("LC_") or k in ("LANG", "LANGUAGE", "PYTHONUTF8",
                                                                                    "PYTHONCOERCECLOCALE", "PYTHONIOENCODING"))}
     e.update(CHILD_ENV[enc])
-    ch = subprocess.Popen([sys.executable, "-m", "props._c06_child"], stdin=subprocess.PIPE, stdout=subprocess.PIPE,
+    ch = subprocess.Popen([sys.executable] + list(flags) + ["-m", "props._c06_child"], stdin=subprocess.PIPE, stdout=subprocess.PIPE,
                           env=e, cwd=os.path.dirname(os.path.dirname(os.path.abspath(__file__))), text=True, bufsize=1)
     hello = json.loads(ch.stdout.readline())
     import codecs
@@ -953,7 +984,7 @@ def _child(enc):
     import psutil
     if os.path.dirname(os.path.realpath(hello["file"])) != os.path.dirname(os.path.realpath(psutil.__file__)):
         raise RuntimeError("child imported psutil from %s" % hello["file"])
-    _children[enc] = ch
+    _children[key] = ch
     return ch
 
 
@@ -1078,7 +1109,7 @@ def _impl_run(case, coq, env):
             fp.add(pid)
             fp.write(pid, "cmdline", b"")
             fp.write(pid, "stat", unB(coq["printed"]))
-            ch = _child(case["enc"])
+            ch = _child(case["enc"], case.get("pyflags") or ())
             ch.stdin.write(json.dumps({"root": root, "pid": pid}) + "\n")
             ch.stdin.flush()
             line = ch.stdout.readline()
@@ -1135,7 +1166,7 @@ def _impl_run(case, coq, env):
                 items = [(nm, d if d in (None, "denied") else bytes.fromhex(d)) for nm, d in case["listing"]]
             for nm, data in items:
                 os.makedirs(os.path.join(task, nm))
-                if data == "denied":
+                if isinstance(data, str):                 # "denied" (file contents are bytes: no bytes == str under -bb)
                     _write(os.path.join(task, nm, "stat"), b"")
                     state["denied"].add(os.path.join(task, nm, "stat"))
                 elif data is not None:
@@ -1168,10 +1199,10 @@ def _impl_run(case, coq, env):
             for nm, data in items:
                 d = os.path.join(root, nm)
                 os.makedirs(d)
-                if data == "denied":
+                if isinstance(data, str) and data == "denied":
                     _write(os.path.join(d, "stat"), b"")
                     state["denied"].add(os.path.join(d, "stat"))
-                elif data not in ("gone", "other"):
+                elif isinstance(data, bytes):
                     _write(os.path.join(d, "stat"), data)
             order = [os.fsencode(nm) for nm, _ in items]
 
@@ -1206,11 +1237,12 @@ def gen_tables(impl_dir, out_dir):
 
 
 MANIFEST = {
-    "text": "66 theorems (Coq 8.16, all closed under the global context) over the Gallina transcription of _parse_stat_file, the "
+    "text": "69 theorems (Coq 8.16, all closed under the global context) over the Gallina transcription of _parse_stat_file, the "
             "stat-fed accessors, boot_time(), the nested wrap_exceptions + Process.status() front end, the four status-file regex "
             "scanners, threads(), pids()/ppid_map() and get_terminal_map() with its two glob() calls. For EVERY kernel-formatted stat "
             "record (any comm bytes of any length, every record length N >= 39 incl. 39..41 without blkio, any digit strings): "
-            "name/ppid/cpu_num exact; the public name() with the object's remembered _name as model state: memoryless on POSIX, every answer of "
+            "name/ppid/cpu_num exact; no formatting site of the reader functions (ast table generated from the source under test) formats or "
+            "compares a bytes-typed local, so no interpreter mode (-bb, -W error) can make a reader fail; the public name() with the object's remembered _name as model state: memoryless on POSIX, every answer of "
             "any history = the documented function (comm, or basename(argv[0]) extending a >= 15-byte comm) of the kernel state at that "
             "moment; name() as a str = os.fsdecode(comm) under the interpreter's file-system encoding (utf-8 / ascii / "
             "latin-1 + surrogateescape) with os.fsencode(os.fsdecode(b)) = b proved for every byte string and each encoding; status() = documented constant for the 12 letters and '?' for every other ASCII token, the "
